@@ -37,7 +37,7 @@ def digest (st : State) : String :=
 
 def showOut (o : Out) : String :=
   let res := match o.res with | none => "-" | some b => showBool b
-  let sts := ",".intercalate (o.statuses.map (showOpt toString))
+  let sts := ",".intercalate (o.statuses.filterMap (fun x => x.map toString))
   s!"res={res} h={showOpt toString o.handle} st=[{sts}] rej={showBool o.rejected}"
 
 def parseOp : List String → Option Op
